@@ -749,3 +749,30 @@ def actual_of(fn, s):
                     if tup[0] == "agg" and tup[1] == "tuple" and a[0] - 1 < len(tup[3]):
                         return tup[3][a[0] - 1]
     return s
+
+
+def import_rules(ctx, prop, rule_ids, as_rule, text, floor=1):
+    """Re-decides rules of another property's module (on that module's own program view) and files the resulting
+    obligations under `as_rule` of the current check: a property that rests on another one's mechanism is broken
+    when that mechanism is."""
+    import importlib
+    from report import Check
+
+    chk = ctx.check
+    chk.rule(as_rule, text, floor=floor)
+    mod = importlib.import_module(f"props.{prop.lower()}")
+    sub = ctx.__class__(prop, ctx.tier, ctx.dir, ctx.config)
+    subchk = Check(prop, ctx.tier)
+    sub.check = subchk
+    try:
+        getattr(mod, "run_config", mod.run)(sub) if ctx.config != "default" else mod.run(sub)
+    except Exception as e:  # fail closed
+        chk.unrecognised(as_rule, f"<import {prop}>", f"imported rules crashed: {e!r}")
+        return
+    n = 0
+    for o in subchk.obs:
+        if o.rule in rule_ids:
+            chk.ob(as_rule, f"[{o.rule}] {o.where}", o.ok, o.detail, o.loc, o.nontrivial)
+            n += 1
+    if n == 0:
+        chk.unrecognised(as_rule, f"<import {prop}>", f"none of {sorted(rule_ids)} produced an obligation")
